@@ -5,8 +5,15 @@ tuples / strs / dicts (empty, singleton, nested to depth n); init in {int, float
 dict, OrderedDict, frozenset, counting factories}; op in {iadd, add, mul, frozenset.union,
 recording op}; Flatten eager / lazy; flatten(levels=0..3); merge(); sub-spec != T; the same spec
 object evaluated 2-3 times; non-iterable targets.
+Two constructed classes: (cls=vec) elements of a user class with the "0 + v is v" idiom (__radd__ returns self for 0,
+__add__ / __iadd__ possibly returning an operand) and an in-place __iadd__, through Sum / Fold / Flatten / flatten() /
+Group(Sum()) with init in {int, float, counting int}; (cls=unreg) an element that cannot be iterated, met WHILE folding
+(by the lazy sub-spec Iter([T]) or inside op), next to the eager spelling [[T]] and to clean controls.
 
-Oracle: functools.reduce / sum / itertools.chain.from_iterable / dict.update.
+Oracle: functools.reduce / sum / itertools.chain.from_iterable / dict.update.  For cls=vec the plain reduction is the one
+builtins.sum performs (operator.add, never in place) on an independently built copy; the result is an input element
+exactly where that reduction returns its own corresponding element.  For cls=unreg the plain reduction raises "this
+element cannot be iterated": glom must raise UnregisteredTarget, and FoldError only for a target it cannot iterate.
 """
 import operator
 import functools
@@ -16,7 +23,8 @@ import collections
 from hypothesis import strategies as st
 
 import glom
-from glom import Fold, Sum, Flatten, Merge, flatten, merge, FoldError, T, GlomError
+from glom import Fold, Sum, Flatten, Merge, flatten, merge, FoldError, T, GlomError, Iter, UnregisteredTarget
+from glom.grouping import Group
 
 from ..runner import Sub, Mismatch
 from .. import targets as tg
@@ -30,6 +38,11 @@ ASSUMPTIONS = [
     'floats are dyadic rationals with few elements, so float arithmetic is exact and == is a sound comparison',
     'a non-iterable *element* raises whatever the operator raises: only the exception class is compared',
     'the accumulator (top-level result) must be a fresh object; elements of elements may be shared with the input by design',
+    'cls=vec: the reduction meant by "Sum equals sum" never applies an in-place operator to an object it did not create '
+    '(reference: functools.reduce(operator.add, ...), which is what builtins.sum does); Group(Sum()) is given >= 1 item '
+    '(what Group-mode aggregation returns for no item at all is not part of the statement)',
+    'cls=unreg: glom(x, [T]) on a value that cannot be iterated raises UnregisteredTarget (documented); the reference raises '
+    'its own marker exception there and the check demands UnregisteredTarget and not FoldError from glom',
 ]
 
 
@@ -58,6 +71,98 @@ class RecOp(object):
         return '<recop>'
 
 
+class Vec(object):
+    """element class with the common "make sum() work" idiom: 0 + v is v itself, and an in-place +="""
+    def __init__(self, *xs):
+        self.xs = list(xs)
+
+    def _zero(self):
+        return not any(self.xs)
+
+    def __add__(self, other):
+        if not isinstance(other, Vec):
+            return NotImplemented
+        return type(self)(*[a + b for a, b in zip(self.xs, other.xs)])
+
+    def __radd__(self, other):
+        if not isinstance(other, Vec) and other == 0:
+            return self
+        return NotImplemented
+
+    def __iadd__(self, other):
+        if not isinstance(other, Vec):
+            return NotImplemented
+        self.xs[:] = [a + b for a, b in zip(self.xs, other.xs)]
+        return self
+
+    def __eq__(self, other):
+        return type(other) is type(self) and self.xs == other.xs
+
+    def __ne__(self, other):
+        return not self == other
+
+    __hash__ = None
+
+    def __repr__(self):
+        return '%s%r' % (type(self).__name__, tuple(self.xs))
+
+
+class VecR(Vec):
+    """as Vec, += rebinds the component list instead of filling it"""
+    def __iadd__(self, other):
+        if not isinstance(other, Vec):
+            return NotImplemented
+        self.xs = [a + b for a, b in zip(self.xs, other.xs)]
+        return self
+
+
+class VecA(Vec):
+    """__add__ returns an operand where the other one is the zero vector"""
+    def __add__(self, other):
+        if not isinstance(other, Vec):
+            return NotImplemented
+        if other._zero():
+            return self
+        if self._zero():
+            return other
+        return Vec.__add__(self, other)
+
+
+class VecI(VecA):
+    """additionally += hands back an operand in the same cases as + does"""
+    def __iadd__(self, other):
+        if not isinstance(other, Vec):
+            return NotImplemented
+        if other._zero():
+            return self
+        if self._zero():
+            return other
+        return Vec.__iadd__(self, other)
+
+
+VECS = {'radd0': Vec, 'radd0-rebind': VecR, 'add-operand': VecA, 'iadd-operand': VecI}
+
+
+class RefUnregistered(Exception):
+    """reference model: this value cannot be iterated (glom's word for it is UnregisteredTarget)"""
+
+
+def ref_listed(x):
+    """glom(x, [T]) for the plain values generated here"""
+    if isinstance(x, (list, tuple)):
+        return list(x)
+    raise RefUnregistered(x)
+
+
+def add_listed(acc, v):
+    """an op that applies a spec to the element: the element must be iterable"""
+    return acc + glom.glom(v, [T])
+
+
+def ref_add_listed(acc, v):
+    return acc + ref_listed(v)
+
+
 INITS = {'int': int, 'float': float, 'list': list, 'tuple': tuple, 'str': str, 'dict': dict,
          'odict': collections.OrderedDict, 'fset': frozenset}
 def last_odd(acc, v):
@@ -74,9 +179,11 @@ def make_init(name):
     return INITS[name]
 
 
-def make_op(name):
+def make_op(name, ref=False):
     if name == 'rec':
         return RecOp()
+    if name == 'addlisted':
+        return ref_add_listed if ref else add_listed
     return OPS[name]
 
 
@@ -118,7 +225,68 @@ COMPAT = {
 }
 
 
+VEC_KINDS = ['sum', 'fold', 'flatten', 'flatten_fn', 'group-sum']
+
+
+def gen_vec(draw):
+    """cls=vec: elements whose 0 + v is v, with an in-place +=, through every entry point that folds with the default op"""
+    kind = draw(st.sampled_from(VEC_KINDS))
+    variant = draw(st.sampled_from(sorted(VECS)))
+    dim = draw(st.sampled_from([1, 2, 3]))
+    n = draw(st.sampled_from([0, 1, 2, 2, 3, 3, 4, 5]))
+    if kind == 'group-sum':
+        n = max(n, 1)
+    elems = []
+    for _ in range(n):
+        if draw(st.sampled_from([0, 0, 0, 1])):
+            xs = [0] * dim                                  # zero vectors: v + 0 / 0 + v may be an operand
+        else:
+            xs = [draw(st.sampled_from(range(-3, 6))) for _ in range(dim)]
+        elems.append(['vec', variant, xs])
+    op = 'iadd'
+    if kind == 'fold':
+        op = draw(st.sampled_from(['iadd', 'iadd', 'iadd', 'add', 'rec']))
+    subspec = draw(st.sampled_from([None, None, 'key', 'listspec']))
+    if kind == 'group-sum' and subspec == 'listspec':
+        subspec = None
+    return {'cls': 'vec', 'kind': kind, 'etype': 'vec', 'elems': elems,
+            'container': draw(st.sampled_from(['list', 'list', 'tuple', 'gen'])),
+            'init': draw(st.sampled_from(['int', 'int', 'float', 'count-int'])), 'op': op, 'levels': 1,
+            'subspec': subspec, 'stop_at': draw(st.sampled_from(range(7))), 'skip_at': draw(st.sampled_from(range(7))),
+            'repeat': draw(st.sampled_from([2, 3])), 'same_data': draw(st.sampled_from([True, True, False])),
+            'non_iterable': False}
+
+
+NON_ITERABLE_ELEMS = [['i', 4], ['none'], ['f', 2.5], ['i', 0]]
+
+
+def gen_unreg(draw):
+    """cls=unreg: an element that cannot be iterated is met while an iterable target is being folded - by a lazy
+    sub-spec (Iter([T])) or inside op; the eager spelling [[T]] and inputs without such an element are the controls"""
+    mode = draw(st.sampled_from(['lazy-subspec', 'lazy-subspec', 'op', 'op', 'eager-subspec']))
+    if mode == 'op':
+        kind, op, subspec = 'fold', 'addlisted', draw(st.sampled_from([None, None, 'key']))
+    else:
+        kind, op = draw(st.sampled_from(['sum', 'fold', 'flatten', 'flatten_fn'])), 'iadd'
+        subspec = 'iterlist' if mode == 'lazy-subspec' else 'eagerlist'
+    n = draw(st.sampled_from([0, 1, 2, 2, 3, 4]))
+    elems = [[draw(st.sampled_from(['list', 'list', 'tuple'])),
+              [['i', draw(st.sampled_from(range(6)))] for _ in range(draw(st.sampled_from(range(4))))]] for _ in range(n)]
+    bad_at = draw(st.sampled_from([None] + list(range(n + 1)) * 2))
+    if bad_at is not None:
+        elems.insert(bad_at, draw(st.sampled_from(NON_ITERABLE_ELEMS)))
+    return {'cls': 'unreg', 'mode': mode, 'kind': kind, 'etype': 'listx', 'elems': elems, 'bad_at': bad_at,
+            'container': draw(st.sampled_from(['list', 'list', 'tuple', 'gen'])),
+            'init': draw(st.sampled_from(['list', 'list', 'count-list'])), 'op': op, 'levels': 1,
+            'subspec': subspec, 'stop_at': 99, 'skip_at': 99, 'repeat': 2, 'non_iterable': False}
+
+
 def gen(draw):
+    cls = draw(st.sampled_from([None] * 10 + ['vec', 'vec', 'unreg', 'unreg']))
+    if cls == 'vec':
+        return gen_vec(draw)
+    if cls == 'unreg':
+        return gen_unreg(draw)
     kind = draw(st.sampled_from(['fold', 'fold', 'sum', 'flatten', 'flatten-lazy', 'merge', 'flatten_fn', 'merge_fn', 'fold-union']))
     if kind in ('merge', 'merge_fn'):
         etype = 'dict'
@@ -155,7 +323,7 @@ def gen(draw):
 
 def build_data(recipe):
     """returns (target, source list (for snapshots), elements)"""
-    elems = [tg.build(e).obj for e in recipe['elems']]
+    elems = [VECS[e[1]](*e[2]) if e[0] == 'vec' else tg.build(e).obj for e in recipe['elems']]
     src = list(elems)
     c = recipe['container']
     if c == 'list':
@@ -201,9 +369,26 @@ def apply_listspec(recipe, items):
     return out
 
 
+def sub_spec(recipe):
+    """the sub-spec of the recipe, None for T"""
+    name = recipe['subspec']
+    if name is None:
+        return None
+    if name == 'key':
+        return T['k']
+    if name == 'iterlist':
+        return Iter([T])
+    if name == 'eagerlist':
+        return [[T]]
+    return list_subspec(recipe)
+
+
 def make_spec(recipe, init, op):
     kind = recipe['kind']
-    sub = T if recipe['subspec'] is None else (T['k'] if recipe['subspec'] == 'key' else list_subspec(recipe))
+    sub = sub_spec(recipe)
+    sub = T if sub is None else sub
+    if kind == 'group-sum':
+        return Group(Sum(init=init)) if sub is T else (sub, Group(Sum(init=init)))
     if kind in ('fold', 'fold-union'):
         return Fold(sub, init=init, op=op)
     if kind == 'sum':
@@ -222,6 +407,16 @@ def reference(recipe, data, init, op):
     it = iter(data)
     if recipe['subspec'] == 'listspec':
         it = iter(apply_listspec(recipe, list(it)))       # iterate(glom(t, [item_spec])): SKIP omits, STOP truncates
+    if recipe['subspec'] == 'eagerlist':
+        it = iter([ref_listed(x) for x in it])            # glom(t, [[T]])
+    if recipe['subspec'] == 'iterlist':
+        it = (ref_listed(x) for x in it)                  # glom(t, Iter([T])): the same items, produced on demand
+    if recipe['etype'] == 'vec' and op is operator.iadd:
+        # "Sum equals sum", "no element of the input is ever mutated": the reduction builtins.sum performs; an in-place
+        # operator is an optimisation for an accumulator the fold made itself, never a licence to write into an element
+        op = operator.add
+    if kind == 'group-sum':
+        return functools.reduce(op, it, init())           # Group(Sum()): the sum of the items (>= 1 item)
     if kind in ('fold', 'fold-union', 'sum', 'flatten'):
         return functools.reduce(op, it, init())
     if kind == 'flatten-lazy':
@@ -238,7 +433,7 @@ def reference(recipe, data, init, op):
         cur = it
         for _ in range(levels - 1):
             cur = itertools.chain.from_iterable(cur)
-        return functools.reduce(operator.iadd, cur, init())
+        return functools.reduce(op if recipe['etype'] == 'vec' else operator.iadd, cur, init())
     raise ValueError(kind)
 
 
@@ -252,8 +447,52 @@ def mutable_ids(v, acc=None, depth=3):
     return acc
 
 
+def alias_index(v, elems):
+    """index of the element that v is (identity), None if v is no element"""
+    for i, x in enumerate(elems):
+        if v is x:
+            return i
+    return None
+
+
+def evaluate(recipe, spec, target, g_init, where):
+    """one evaluation in the glom world: ('ok', value) | ('err', exception)"""
+    kind = recipe['kind']
+    try:
+        if kind in ('flatten_fn', 'merge_fn'):
+            kw = {'init': g_init}
+            if kind == 'flatten_fn':
+                kw['levels'] = recipe['levels']
+            if recipe['subspec'] is not None:
+                kw['spec'] = sub_spec(recipe)
+            got = ('ok', (flatten if kind == 'flatten_fn' else merge)(target, **kw))
+        else:
+            got = ('ok', glom.glom(target, spec))
+        if kind == 'flatten-lazy' and got[0] == 'ok':
+            lazy_obj = got[1]
+            if isinstance(lazy_obj, (list, tuple)):
+                raise Mismatch('lazy-not-lazy', '%s: lazy Flatten returned a %s' % (where, type(lazy_obj).__name__))
+            got = ('ok', list(lazy_obj))
+    except Mismatch:
+        raise
+    except Exception as e:
+        got = ('err', e)
+    return got
+
+
 def check(recipe, ctx):
     kind = recipe['kind']
+    cls = recipe.get('cls')
+    if cls == 'vec':
+        # the hazard: init() + first element is that element, and the next step uses the default in-place op
+        folded = apply_listspec(recipe, recipe['elems']) if recipe['subspec'] == 'listspec' else recipe['elems']
+        hazard = recipe['op'] == 'iadd' and len(folded) >= 2
+        ctx.label('cls-vec', 'vec-' + recipe['elems'][0][1] if recipe['elems'] else 'vec-empty', 'vec-entry-' + kind,
+                  'vec-init-' + recipe['init'])
+        if hazard:
+            ctx.label('vec-inplace-hazard', 'vec-inplace-hazard-' + kind)
+    if cls == 'unreg':
+        ctx.label('cls-unreg', 'unreg-' + recipe['mode'] + ('-clean' if recipe['bad_at'] is None else '-bad'))
     ctx.label('kind-' + kind, 'etype-' + recipe['etype'], 'container-' + recipe['container'], 'subspec-%s' % recipe['subspec'])
     if recipe['non_iterable']:
         ctx.label('non-iterable-target')
@@ -295,13 +534,13 @@ def check(recipe, ctx):
         ctx.label('construction-rejected')
         return
     results = []
-    nontriv = (len(recipe['elems']) >= 2 and recipe['etype'] in ('list', 'tuple', 'dict', 'nested')) or \
+    nontriv = (len(recipe['elems']) >= 2 and recipe['etype'] in ('list', 'tuple', 'dict', 'nested', 'vec', 'listx')) or \
         (kind == 'flatten_fn' and recipe['levels'] >= 2) or recipe['init'].startswith('count-')
     ctx.nontrivial(nontriv)
     for rep in range(recipe['repeat']):
         # reference world
         r_init = make_init(recipe['init'])
-        r_op = make_op(opname) if opname != 'update' else None
+        r_op = make_op(opname, ref=True) if opname != 'update' else None
         rdata, rsrc = build_data(recipe)
         try:
             exp = ('ok', reference(recipe, rdata, r_init, r_op))
@@ -315,36 +554,20 @@ def check(recipe, ctx):
         target = {'k': data} if recipe['subspec'] == 'key' else data
         calls_before = g_init.calls if isinstance(g_init, CountingInit) else None
         where = '%s spec=%r elems=%r container=%s evaluation #%d' % (kind, spec, src, recipe['container'], rep + 1)
-        try:
-            if kind == 'flatten_fn':
-                kw = {'levels': recipe['levels'], 'init': g_init}
-                if recipe['subspec'] == 'key':
-                    kw['spec'] = T['k']
-                elif recipe['subspec'] == 'listspec':
-                    kw['spec'] = list_subspec(recipe)
-                got = ('ok', flatten(target, **kw))
-            elif kind == 'merge_fn':
-                kw = {'init': g_init}
-                if recipe['subspec'] == 'key':
-                    kw['spec'] = T['k']
-                elif recipe['subspec'] == 'listspec':
-                    kw['spec'] = list_subspec(recipe)
-                got = ('ok', merge(target, **kw))
-            else:
-                got = ('ok', glom.glom(target, spec))
-            if kind == 'flatten-lazy' and got[0] == 'ok':
-                lazy_obj = got[1]
-                if isinstance(lazy_obj, (list, tuple)):
-                    raise Mismatch('lazy-not-lazy', '%s: lazy Flatten returned a %s' % (where, type(lazy_obj).__name__))
-                got = ('ok', list(lazy_obj))
-        except Mismatch:
-            raise
-        except Exception as e:
-            got = ('err', e)
+        got = evaluate(recipe, spec, target, g_init, where)
         ctx.label('exp-' + exp[0])
         if exp[0] == 'err':
             if got[0] != 'err':
                 raise Mismatch('missing-error', '%s: the reduction raises %r, glom returned %r' % (where, exp[1], got[1]))
+            if isinstance(exp[1], RefUnregistered) and not isinstance(got[1], UnregisteredTarget):
+                # the plain reduction fails because an ELEMENT cannot be iterated (by the sub-spec / by op): that is
+                # glom's UnregisteredTarget for that element, whether the sub-spec is spelled eagerly or lazily
+                raise Mismatch('unregistered-relabelled', '%s: iterating the element %r fails (UnregisteredTarget), glom raised %s: %r'
+                               % (where, exp[1].args[0], type(got[1]).__name__, got[1]))
+            if isinstance(got[1], FoldError):
+                # "a non-iterable target raises FoldError": this target is iterable
+                raise Mismatch('folderror-for-iterable-target', '%s: the reduction raises %r, glom raised FoldError: %r'
+                               % (where, exp[1], got[1]))
             if not isinstance(got[1], type(exp[1])) and not isinstance(got[1], GlomError):
                 raise Mismatch('wrong-error-class', '%s: expected %r, got %r' % (where, exp[1], got[1]))
             return
@@ -380,6 +603,35 @@ def check(recipe, ctx):
             if g_op.calls[-len(src):] != [repr(x) for x in (list(data) if recipe['container'] == 'set' else src)] and src:
                 if recipe['container'] != 'set':
                     raise Mismatch('op-order', '%s: op saw %r' % (where, g_op.calls[-len(src):]))
+        if cls == 'vec':
+            # the result is an input element only where the plain reduction returns its own corresponding element
+            # (sum([v]) is v); otherwise it shares no state with the input or with an earlier result.  (A new object
+            # where sum() hands back an element is fine: an in-place step on an accumulator the fold made itself.)
+            ai, ag = alias_index(e, rsrc), alias_index(g, src)
+            if ag is not None and ag != ai:
+                raise Mismatch('result-aliases-input', '%s: the result is input element %r, the plain reduction returns %s'
+                               % (where, ag, 'a new object' if ai is None else 'its element %d' % ai))
+            if ag is None and isinstance(g, Vec):
+                if any(g.xs is x.xs for x in src) or any(isinstance(p, Vec) and p.xs is g.xs for p in results):
+                    raise Mismatch('results-share-state', '%s: the result shares its component list' % where)
+            if recipe.get('same_data') and recipe['container'] != 'gen':
+                # the same spec object on the same (untouched) input once more: equal and independent
+                spec2 = make_spec(recipe, g_init, g_op) if recipe['subspec'] == 'listspec' else spec
+                got2 = evaluate(recipe, spec2, target, g_init, where)
+                if got2[0] == 'err':
+                    raise Mismatch('spurious-error', '%s: second evaluation on the same input raised %r' % (where, got2[1]))
+                g2 = got2[1]
+                if type(g2) is not type(e) or g2 != e:
+                    raise Mismatch('evaluations-differ', '%s: second evaluation on the same input returned %r, the first %r'
+                                   % (where, g2, g))
+                d = tg.snapshot_diff(snap, tg.snapshot(src))
+                if d:
+                    raise Mismatch('input-mutated', '%s (second evaluation on the same input): %s' % (where, d))
+                ag2 = alias_index(g2, src)
+                if ag2 is not None and ag2 != ai:
+                    raise Mismatch('result-aliases-input', '%s: the second result is input element %r' % (where, ag2))
+                if ag is None and isinstance(g2, Vec) and (g2 is g or g2.xs is g.xs):
+                    raise Mismatch('results-share-state', '%s: two evaluations on the same input share state' % where)
         # the accumulator is a fresh object: not an input, not a previous result
         if isinstance(g, (list, dict, set)) and not (kind == 'flatten_fn' and recipe['levels'] == 0):
             if id(g) in set(map(id, src)) or g is src or g is data:
@@ -396,6 +648,13 @@ def check(recipe, ctx):
 
 
 SUBS = [
-    Sub('reduce', check, gen=gen, quick=6000, thorough=20000,
-        floors={'exp-ok': 0.5, 'kind-flatten_fn': 0.05, 'kind-merge': 0.05, 'non-iterable-target': 0.02}),
+    Sub('reduce', check, gen=gen, quick=7000, thorough=20000,
+        floors={'exp-ok': 0.5, 'kind-flatten_fn': 0.05, 'kind-merge': 0.04, 'non-iterable-target': 0.02,
+                # constructed classes (shares of all cases)
+                'cls-vec': 0.06, 'vec-inplace-hazard': 0.04,
+                'vec-inplace-hazard-sum': 0.006, 'vec-inplace-hazard-fold': 0.006, 'vec-inplace-hazard-flatten': 0.006,
+                'vec-inplace-hazard-flatten_fn': 0.006, 'vec-inplace-hazard-group-sum': 0.006, 'vec-init-float': 0.012,
+                'vec-radd0': 0.012, 'vec-radd0-rebind': 0.012, 'vec-add-operand': 0.012, 'vec-iadd-operand': 0.012,
+                'cls-unreg': 0.05, 'unreg-lazy-subspec-bad': 0.015, 'unreg-op-bad': 0.015, 'unreg-eager-subspec-bad': 0.006,
+                'unreg-lazy-subspec-clean': 0.003, 'unreg-op-clean': 0.003}),
 ]
